@@ -1,9 +1,10 @@
 (* Extraction for the C01 correspondence driver. ExtrOcamlBasic only; Z/N stay datatypes. *)
 From Coq Require Import Extraction ExtrOcamlBasic ZArith NArith List.
-From GoSecs Require Import Gen.Gen Base.BytesBE Secs2.Item Secs2.Encode Secs2.Decode.
+From GoSecs Require Import Gen.Gen Base.BytesBE Secs2.Item Secs2.Encode Secs2.Decode Secs2.Raw.
 Extraction Language OCaml.
 Extraction "c01_model.ml"
   Z.add Z.mul Z.opp Z.sub Z.div_eucl Z.of_N Z.to_N N.add N.mul N.div_eucl Z.eqb Z.ltb Z.leb
   Z.of_nat length zlen header_len
   wf ctor_ok depth size equal encode encoded_len append_to to_bytes decode
+  erase encode_c encoded_len_c decode_c wf_c
   Gen.secs2.headerLen Gen.secs2.MaxByteSize Gen.secs2.MaxListDepth.
